@@ -21,4 +21,19 @@ TEXT = {
   "level_text": "Pipes over the registered filters (length 0..255, repeats) x payload classes are packed and unpacked (exact inversion; receiver rebuilds the pipe from a raw frame); pipes naming an unregistered id must be refused by Append and by Unpack; for pipes containing md5 every byte position of the packed payload is corrupted (3 masks quick; all 255 masks for payloads <=64 B in the thorough tier, a complete enumeration for those payloads). The end-to-end 'reply travels through the caller's pipe' part is checked with sessions in the same run group.",
   "level_note": "compress/gzip and crypto/md5 are trusted; corruption model = one byte xor-ed.",
  },
+ "C02": {
+  "technique": "property-based fault/event scripts against a scripted remote (rapid) + exhaustive cut-offset enumeration",
+  "level_text": "A real client session with 1-5 outstanding calls faces a scripted remote whose event script is generated: per-call reply classes (valid, error, duplicate, unknown seq, codec 0 with body, undecodable, truncated) with reply-path vetoes, interleaved with local Close, remote close, cut, over-limit garbage. Oracle: every call's Done fires after its terminal event (20 s bound + goroutine dump), exactly one completion-channel delivery, never OK without a reply, Close returns; a process crash is reported from the journalled case. In addition the connection is cut at EVERY byte offset of the request and reply streams of a fixed two-call scenario per protocol (complete over that finite space).",
+  "level_note": "Liveness is bounded-time evidence. Orderings are those generated (script order + settle pauses); no gate inside the framework is used in this check.",
+ },
+ "C03": {
+  "technique": "property-based frame sequences from a scripted raw peer against a reference model of dispatch (rapid)",
+  "level_text": "A scripted raw peer sends generated frame sequences (any type byte, known/unknown/empty/255-byte routes, decodable/undecodable/empty bodies, registered/unregistered/nil codec ids, pre-handler plugin vetoes, duplicate/extreme seqs; handler returns, fails, panics with string/error/*Status, is gated, or returns an unmarshalable reply) to a real server session, pipelined or frame by frame under generated read chunkings. A model decides expected REPLY count per seq, handler invocations per request id, reply status code and whether the session must disconnect; a graceful Close is the final barrier so counts are taken at quiescence.",
+  "level_note": "Write faults during the reply are not injected. Concurrency is whatever pipelining + the pool scheduler produce.",
+ },
+ "C04": {
+  "technique": "property-based cause x protocol x codec matrix against a model of the expected status triple (rapid)",
+  "level_text": "One call per case over raw/json/pb/http and the two websocket sub-protocols (real HTTP upgrade over the in-memory transport), body codecs json/xml/form: the cause of the outcome is generated (handler OK/any status, 404, 400, panic, server veto per stage, caller veto before write and per reply stage, cut while the handler runs, result-type mismatch) and the observed (code,msg,cause) at accessor level is compared with a small model; whether a mismatching result type must fail is decided by the codec alone.",
+  "level_note": "protobuf/thrift body codecs are covered by C01/C11, not by this matrix; thrift wire protocols are covered in the thrift binary for round-trip only.",
+ },
 }
